@@ -11,6 +11,11 @@ def rb_nz(rng, n):
 
 
 def pick_matrix(rng, mode, prefer=None):
+    from . import common
+    if common.REAL_P > 0 and rng.random() < common.REAL_P:
+        m = matrix_for(mode, common.MATRIX_REAL)
+        if m:
+            return rng.choice(m)
     m = matrix_for(mode)
     if prefer:
         mm = [x for x in m if prefer(x)]
@@ -131,3 +136,26 @@ def counter_bits(mode):
     if mode == "belt":
         return 128
     return 0
+
+
+# ---- alternative public routes to the same backend entry points (harness ops `backend`, `applyblock`, `ksdirect`) ----
+def blocks_op(rng, data, p=0.3):
+    """a many-block in-place call: usually `*_blocks`, sometimes a caller-written closure for `*_with_backend` that uses the
+    `_inplace` / `par` / `tail` backend entry points directly (variants 0-2; 3 goes buffer-to-buffer into a dirty buffer)"""
+    if rng.random() < p:
+        return f"backend {rng.randrange(0, 4)} {hx(data)}"
+    return f"blocks {hx(data)}"
+
+
+def coreapply_op(rng, data, bs, p=0.5):
+    """`apply_keystream_blocks`, or for a single block sometimes the single-block entry point `apply_keystream_block_inout`"""
+    if len(data) == bs and rng.random() < p:
+        return f"applyblock {hx(data)}" if rng.random() < 0.6 else f"applyblockb {hx(data)} {hx(rb_nz(rng, bs))}"
+    return f"applyblocks {hx(data)}"
+
+
+def ks_op(rng, n, p=0.3):
+    """`write_keystream_blocks`, or a caller-written closure for `process_with_backend`"""
+    if rng.random() < p:
+        return f"ksdirect {rng.randrange(0, 2)} {n}"
+    return f"ksblocks {n}"
